@@ -65,11 +65,13 @@ func (e *EncryptionKeys) String() string {
 //
 // https://tools.ietf.org/html/rfc4279#section-2
 func PSKPreMasterSecret(psk []byte) []byte {
-	pskLen := uint16(len(psk)) //nolint:gosec // G115
+	// The offsets are computed as int: as uint16 they wrap for keys close to
+	// the 65535 bytes that RFC 4279 allows.
+	pskLen := len(psk)
 
 	out := append(make([]byte, 2+pskLen+2), psk...)
-	binary.BigEndian.PutUint16(out, pskLen)
-	binary.BigEndian.PutUint16(out[2+pskLen:], pskLen)
+	binary.BigEndian.PutUint16(out, uint16(pskLen))            //nolint:gosec // G115
+	binary.BigEndian.PutUint16(out[2+pskLen:], uint16(pskLen)) //nolint:gosec // G115
 
 	return out
 }
